@@ -68,7 +68,14 @@ func writeValue(b *strings.Builder, v reflect.Value, depth int) {
 			b.WriteString("X" + v.Type().String())
 			return
 		}
-		b.WriteString("X" + v.Type().String())
+		switch v.Type().Elem().Kind() {
+		case reflect.Struct, reflect.Func, reflect.Chan, reflect.UnsafePointer:
+			// pointers to internal objects (e.g. the evaluator's sequence) must stay visible
+			b.WriteString("X" + v.Type().String())
+		default:
+			// a pointer to a JSON value the caller put into the input (encoding/json marshals it as the value)
+			writeValue(b, v.Elem(), depth+1)
+		}
 	case reflect.Bool:
 		if v.Bool() {
 			b.WriteString("t")
